@@ -3,10 +3,30 @@
 import json, subprocess
 ALL=[f"C{i:02d}" for i in range(1,31)]
 # id -> (category, technique, level text, level note, design ref)
+MC="bounded-exhaustive explicit-state search (BFS) over API-call histories on the real wirm::Module, every state rebuilt by replay and judged against an entity/handle reference model"
+EX="exhaustive enumeration of a bounded input/plan space on the real code with an independent decoder/validator oracle"
+TB_DEC="Trusts wasmparser 0.235 (decoder, validator) and wasmprinter 0.235 as independent oracles; the harness never decodes with wirm."
 CHECKS={
+ "C01": ("exploration",EX,"Every in-scope operator of the wasmparser operator table x immediate domains, every value type x syntactic position, every subset of <=1 (quick) / <=2 (thorough) section-shape fragments and (thorough) the repository corpus is parsed and re-encoded by the real library; the output must validate. Exhaustive within those families; inputs that do not validate are excluded and counted.",TB_DEC,"DESIGN.md §2 C01"),
+ "C02": ("exploration",EX,"Same families as C01; the decoded output (text of all non-custom sections, decoded name maps, ordered custom-section list) must equal the decoded input.",TB_DEC,"DESIGN.md §2 C02"),
+ "C05": ("model_checking",MC,"Every state of the C06/C07/C08 history spaces (depth 2 quick / 3 thorough) is encoded three times; all encodings must be byte-identical and none may panic. Findings caused by re-applying the ID mapping are listed in known_findings.json per renumbering operation; histories without such an operation must be clean.",TB_DEC+" Instrumentation plans are covered once the plan explorer exists (see notes).","DESIGN.md §2 C05"),
+ "C06": ("model_checking",MC,"All histories of length <=2 (quick) / <=3 (thorough) over add local/import function, delete, local->import, import->local, injected call/return_call/ref.func through iterator and modifier, add/delete export, on 9 base modules that separate every reference-site kind; in every state each function reference must designate the entity whose ID the caller holds, the live-entity multiset must match and the output must validate.",TB_DEC+" Identity tokens (import names, marker constants) are the harness's own convention.","DESIGN.md §2 C06"),
+ "C07": ("model_checking",MC,"All histories (depth 2/3) over add global (module- and iterator-level, const / global.get initialiser), add imported global, delete, replace initialiser, injected global.get/set on 8 bases (code, global init, data offset, element offset, table init, exports as separate variants).",TB_DEC+" global.atomic.* operators are not yet in the bases (see notes).","DESIGN.md §2 C07"),
+ "C08": ("model_checking",MC,"All histories (depth 2/3) over add local/imported memory, delete, injected memory instructions of 8 classes, add memory export, add data, on 4 multi-memory bases; one base contains EVERY operator of the wasmparser table that carries a memory index (taken mechanically from the operator table), each behind a site marker.",TB_DEC,"DESIGN.md §2 C08"),
+ "C09": ("model_checking",MC,"The C06-C08 spaces restricted to histories with >=1 deletion, including deletions of referenced entities: no dangling reference -> exactly the deleted entities are gone; dangling -> encoding must fail loudly and never emit an index for the dangling site.",TB_DEC+" Lenient: a start section of a deleted function may be dropped.","DESIGN.md §2 C09"),
+ "C10": ("model_checking",MC,"16 bases = every placement of non-function imports around 3 function imports; all orders and subsets of replace_import_in_module (ImportsID from imports.find) with <=1 other edit, depth 3/4.",TB_DEC,"DESIGN.md §2 C10"),
+ "C11": ("model_checking",MC,"All orders and subsets of convert_local_fn_to_import interleaved with <=2 import additions, depth 3/5, on 7 bases with every reference-site kind.",TB_DEC,"DESIGN.md §2 C11"),
+ "C12": ("model_checking","bounded-exhaustive enumeration of builder histories (signature x locals x body x surrounding edits) on the real FunctionBuilder, decoded with wasmparser","Every combination within the stated deviation bounds of signature, local list, stack-neutral body, name and one edit before/after on 4 bases; the built function is located by an identity token and must have exactly the requested type, locals, instructions + one end, name; the returned ID is checked through an export.",TB_DEC,"DESIGN.md §2 C12"),
+ "C13": ("model_checking","bounded-exhaustive enumeration of type-API histories on the real ModuleTypes, decoded with wasmparser","All histories of length <=3 (quick) / <=4 (thorough) over 22+ type descriptors (func/array/struct, packed and ref fields, supertypes, finality) on 5 bases incl. explicit rec groups and duplicate types: returned index designates exactly the requested type, equal requests dedupe, existing types are an unchanged prefix.",TB_DEC+" Hash-order dependence of deduplication is C04's.","DESIGN.md §2 C13"),
+ "C14": ("model_checking","bounded-exhaustive enumeration of add_local sequences through all six local-adding APIs, decoded with wasmparser","All sequences of length <=3 (quick) / <=4 (thorough) over 10 value types through FunctionBuilder, FunctionModifier::add_local/add_locals, ModuleIterator, ComponentIterator and LocalFunction::add_local on functions with 0-2 params x 6 local-declaration shapes x position in the module: returned index = params + declared locals, encoded locals = old ++ requested, nothing else changes.",TB_DEC,"DESIGN.md §2 C14"),
  "C24": ("exploration","exhaustive enumeration of the complete helper alphabet x boundary immediates on the real builder, decoded with wasmparser",
          "Every helper method of the injection API (the set is scraped from src/opcode.rs and must equal the expectation table) is called with a bounded, complete immediate domain; the encoded instruction must equal the tabled operator with bit-exact immediates. Complete over the helper alphabet, bounded over immediates.",
          "Trusts wasmparser's decoder and the hand-stated helper->operator table (tools/gen_c24_table.py).","DESIGN.md §2 C24"),
+ "C25": ("exploration",EX,"Modules with 0-2 function imports x 0-3 (thorough 0-5) local functions x body shapes x EVERY skip list (all subsets incl. imports and unknown ids; thorough also orders/duplicates): the visit sequence (location, end flag, operator) until next() returns None, and again after reset() from every prefix, must equal an iterator model over the wasmparser-decoded code section; modules with nothing to visit must not panic.",TB_DEC,"DESIGN.md §2 C25"),
+ "C26": ("exploration",EX,"Components of 1-3 generated modules (some nested) x every skip map: ComponentIterator's visit sequence must equal the concatenation of the model's per-module sequences, before and after reset; every plan of <=1 (quick) / <=2 (thorough) before/after/alternate probes applied through ComponentIterator and through per-module ModuleIterators must give byte-identical core modules.",TB_DEC,"DESIGN.md §2 C26"),
+ "C27": ("exploration",EX,"All ordered nesting trees (<=6 / <=9 nodes, depth <=4), all section-atom sequences (<=4 / <=5 of 31 atoms, both section framings, named/unnamed), split interleavings, 48 component type forms x 4 positions, 59 canonical-function forms and (thorough) the repository's component corpus: parse, encode, validate, equal text, per-level section skeleton, custom sections and component names.",TB_DEC+" Inputs needing async/extension features are validated with the extension feature set and classed separately.","DESIGN.md §2 C27"),
+ "C28": ("model_checking","bounded-exhaustive enumeration of custom-section placements x edit histories on the real API against a list model","<=2 (quick) / <=3 (thorough) custom sections over 5 names x 3 payloads at every position among the 13 standard sections, x all edit sequences of length <=2 / <=3 (add, delete, modify): decoded custom-section list equals the list model and the rest of the module's text is unchanged.",TB_DEC,"DESIGN.md §2 C28"),
+ "C29": ("model_checking",MC,"All histories (depth 2/3) over index-shifting edits and naming calls on 2 bases with complete name sections; every function/local/global name must sit on the token it was attached to. Local and global name maps are known findings (replayed verbatim).",TB_DEC,"DESIGN.md §2 C29"),
 }
 PENDING_REASON="check not built yet in this round (planned in DESIGN.md §2); no claim is made"
 repo_commits=subprocess.run(["git","-C","/repo","log","--format=%H %s"],capture_output=True,text=True).stdout.splitlines()
